@@ -724,6 +724,8 @@ type c04Obs struct {
 	SCurve    int            `json:"scurve"`
 	BaseEMS   int            `json:"base_ems"`
 	BaseCurve int            `json:"base_curve"`
+	Sched     string         `json:"sched"`  // delivery schedule: "" = datagrams as emitted, "split" = one datagram per record
+	Pieces    int            `json:"pieces"` // datagrams actually delivered
 	Target    string         `json:"target"` // ClientHello mutations: "" = every copy, ch1 = only the cookie-less one, ch2 = only the one with the cookie
 	Wire      []c03WireAlert `json:"wire_alerts"`
 	Delivered int            `json:"delivered"`
@@ -852,6 +854,21 @@ func c04LocalAlert(me, peer *vPeer, wire []c03WireAlert) int {
 	return -1
 }
 
+// c04Pieces: delivery schedule "split" = one datagram per record, in order, each followed by a run to
+// quiescence, so that the receiving state machine parses after every single record (a flight that spans
+// several datagrams: the parser of a flight is re-entered with a partial flight)
+func c04Pieces(data []byte, split bool) [][]byte {
+	if !split {
+		return [][]byte{data}
+	}
+	var out [][]byte
+	for _, r := range vParseDatagram(data, 0) {
+		out = append(out, r.Raw)
+	}
+
+	return out
+}
+
 func c04Pump(lab *vLab, obs *c04Obs, v c04Variant, mut *c04Mut, next *int, done func() bool, limit time.Duration) {
 	deadline := time.Now().Add(limit)
 	for {
@@ -866,8 +883,14 @@ func c04Pump(lab *vLab, obs *c04Obs, v c04Variant, mut *c04Mut, next *int, done 
 			}
 			obs.Delivered++
 			if data := c04Rewrite(obs, v, mut, d); len(data) > 0 {
-				lab.Net.deliver(d.To, d.From, data)
-				synctest.Wait()
+				for _, piece := range c04Pieces(data, obs.Sched == "split") {
+					if len(piece) == 0 {
+						continue
+					}
+					lab.Net.deliver(d.To, d.From, piece)
+					synctest.Wait()
+					obs.Pieces++
+				}
 			}
 			progressed = true
 		}
@@ -889,10 +912,13 @@ func c04Pump(lab *vLab, obs *c04Obs, v c04Variant, mut *c04Mut, next *int, done 
 	}
 }
 
-func runC04(t *testing.T, v c04Variant, mut *c04Mut) c04Obs {
+func runC04(t *testing.T, v c04Variant, mut *c04Mut, sched ...string) c04Obs {
 	t.Helper()
 	obs := c04Obs{Kind: "c04", Variant: v, CAlert: -1, SAlert: -1, CSuite: -1, SSuite: -1, CSRTP: -1, SSRTP: -1,
 		CEMS: -1, SEMS: -1, CCurve: -1, SCurve: -1}
+	if len(sched) > 0 {
+		obs.Sched = sched[0]
+	}
 	if mut != nil {
 		obs.Mut, obs.Dir, obs.HType = mut.Name, mut.Dir, int(mut.HType)
 	}
@@ -976,10 +1002,23 @@ func runC04(t *testing.T, v c04Variant, mut *c04Mut) c04Obs {
 	return obs
 }
 
+// quick tier: the split schedule is run for a representative subset of the mutations (thorough: all)
+var c04SplitQuick = map[string]bool{ //nolint:gochecknoglobals
+	"ch_strip_ems": true, "ch_narrow_alpn": true, "ch_narrow_groups": true, "ch_session_id": true, "ch_flip_random": true,
+	"ch_swap_suites": true, "ch_strip_ems@ch1": true, "ch_narrow_alpn@ch2": true,
+	"sh_alter_alpn": true, "sh_strip_ems": true, "sh_session_id": true, "sh_flip_random": true,
+	"scert_flip_last": true, "ske_sig": true, "ske_hint": true, "creq_alter_ca": true,
+	"cke_identity": true, "cke_pubkey": true, "cv_sig": true, "cv_delete": true, "hvr_version_10": true,
+}
+
 func TestVerifC04(t *testing.T) {
 	out := newVOut(t)
 	muts := c04Muts()
-	only := os.Getenv("C04_ONLY") // "variant:mutation" (debugging / replay)
+	only := os.Getenv("C04_ONLY") // "variant:mutation[:split|:plain]" (debugging / replay)
+	onlySched := ""
+	if parts := strings.Split(only, ":"); len(parts) == 3 {
+		only, onlySched = parts[0]+":"+parts[1], parts[2]
+	}
 	for _, v := range c04Variants() {
 		v := v
 		if only != "" && !strings.HasPrefix(only, v.Name+":") {
@@ -1015,17 +1054,35 @@ func TestVerifC04(t *testing.T) {
 			if only != "" && only != v.Name+":"+m.Name && only != v.Name+":" {
 				continue
 			}
-			var obs c04Obs
-			vBubble(t, func(t *testing.T) { obs = runC04(t, v, m) })
-			if obs.Applied == 0 {
-				continue // the variant has no such message / field
+			for _, sched := range []string{"", "split"} {
+				if sched == "split" && !vIsThorough() && !c04SplitQuick[m.Name] && onlySched != "split" {
+					continue
+				}
+				if onlySched != "" && onlySched != sched && !(onlySched == "plain" && sched == "") {
+					continue
+				}
+				var obs c04Obs
+				vBubble(t, func(t *testing.T) { obs = runC04(t, v, m, sched) })
+				if obs.Applied == 0 {
+					continue // the variant has no such message / field
+				}
+				obs.BaseSuite, obs.BaseALPN, obs.BaseSRTP = base.CSuite, base.CALPN, base.CSRTP
+				obs.BaseEMS, obs.BaseCurve = base.SEMS, base.SCurve
+				if at := strings.Index(m.Name, "@"); at >= 0 {
+					obs.Target = m.Name[at+1:]
+				}
+				out.emit(obs)
 			}
-			obs.BaseSuite, obs.BaseALPN, obs.BaseSRTP = base.CSuite, base.CALPN, base.CSRTP
-			obs.BaseEMS, obs.BaseCurve = base.SEMS, base.SCurve
-			if at := strings.Index(m.Name, "@"); at >= 0 {
-				obs.Target = m.Name[at+1:]
+		}
+		// the split schedule alone must not disturb an untampered handshake
+		if onlySched == "" || onlySched == "split" {
+			if only == "" || only == v.Name+":" {
+				var sb c04Obs
+				vBubble(t, func(t *testing.T) { sb = runC04(t, v, nil, "split") })
+				sb.BaseSuite, sb.BaseALPN, sb.BaseSRTP = base.CSuite, base.CALPN, base.CSRTP
+				sb.BaseEMS, sb.BaseCurve = base.SEMS, base.SCurve
+				out.emit(sb)
 			}
-			out.emit(obs)
 		}
 	}
 }
